@@ -29,8 +29,10 @@ CHECKS = {
     "C05": ("kv.checks.codec", "C05"),
     "C06": ("kv.checks.faults", "C06"),
     "C10": ("kv.checks.faults", "C10"),
+    "C07": ("kv.checks.stream", "C07"),
     "C08": ("kv.checks.structure", "C08"),
     "C09": ("kv.checks.structure", "C09"),
+    "C11": ("kv.checks.prims", "C11"),
     "C13": ("kv.checks.structure", "C13"),
     "C14": ("kv.checks.structure", "C14"),
 }
